@@ -254,7 +254,7 @@ func (w *CliWorld) start() {
 	if err != nil {
 		Fatalf("scriptsrv: %v", err)
 	}
-	ss.Handler = w.onServerDatagram
+	ss.SetHandler(w.onServerDatagram)
 	w.srvSock = ss
 	cs, err := w.Net.ListenUDP("client", "c1", w.cliAddr.IP, w.cliAddr.Port)
 	if err != nil {
@@ -505,7 +505,7 @@ func (w *CliWorld) finish() {
 		}
 		_ = w.cliSock.Close()
 	})
-	w.srvSock.Handler = nil
+	w.srvSock.SetHandler(nil)
 	ss := w.srvSock
 	w.lib(func() { _ = ss.Close() })
 	w.K.At(w.K.Now()+20*sec, "final", w.final)
